@@ -38,7 +38,33 @@ type Server struct {
 	model   map[int64]int64
 	Logs    []string
 	abandoned []*gcsemu.Server
+	extraHdr  map[string]string
+	frozen    bool // concurrent use: do not record new bucket/object names
 }
+
+// Prepare resolves the symbolic condition values of op from the last read-back (so that concurrent requests can
+// then be issued with ExecHdr without touching shared harness state).
+func (s *Server) Prepare(op *Op) {
+	b, n := string(op.B), string(op.N)
+	if op.Ev == "Upload" {
+		op.Md5 = j.S(md5b64(op.Content))
+	}
+	op.Conds = s.resolve(op.Conds, b, n, nil)
+	for i := range op.Srcs {
+		c := s.resolve(Conds{Gm: op.Srcs[i].Gm, Gnm: Unset(), Mm: Unset(), Mnm: Unset()}, b, string(op.Srcs[i].N), nil)
+		op.Srcs[i].Gm = c.Gm
+	}
+}
+
+// ExecHdr is Exec with extra request headers, safe to call concurrently: it works on a private view of the
+// server handle (object names must have been registered by the setup; symbolic values resolved by Prepare).
+func (s *Server) ExecHdr(op *Op, hdr map[string]string) {
+	view := *s
+	view.extraHdr = hdr
+	view.frozen = true
+	view.Exec(op, map[string][]int64{}, 0)
+}
+
 
 func Start(store, dir string) (*Server, error) {
 	s := &Server{Store: store, Dir: dir, names: map[string][]string{}, ids: map[int]int{}, upBN: map[int][2]string{}, model: map[int64]int64{}}
@@ -80,6 +106,9 @@ func (s *Server) CloseAndRemove() {
 }
 
 func (s *Server) noteBucket(b string) {
+	if s.frozen {
+		return
+	}
 	for _, x := range s.buckets {
 		if x == b {
 			return
@@ -90,6 +119,9 @@ func (s *Server) noteBucket(b string) {
 }
 
 func (s *Server) noteName(b, n string) {
+	if s.frozen {
+		return
+	}
 	s.noteBucket(b)
 	for _, x := range s.names[b] {
 		if x == n {
@@ -137,6 +169,9 @@ func (s *Server) do(method, rawurl string, hdr map[string]string, body []byte, g
 		return httpResult{aborted: true, err: err.Error()}
 	}
 	for k, v := range hdr {
+		req.Header.Set(k, v)
+	}
+	for k, v := range s.extraHdr {
 		req.Header.Set(k, v)
 	}
 	if gz {
@@ -393,8 +428,10 @@ func (s *Server) Exec(op *Op, hist map[string][]int64, opIndex int) {
 			if i := strings.LastIndex(loc, "upload_id="); i >= 0 {
 				op.Id, _ = strconv.Atoi(loc[i+len("upload_id="):])
 			}
-			s.ids[opIndex] = op.Id
-			s.upBN[op.Id] = [2]string{b, n}
+			if !s.frozen {
+				s.ids[opIndex] = op.Id
+				s.upBN[op.Id] = [2]string{b, n}
+			}
 		}
 	case "ResumablePut":
 		if id, ok := s.ids[op.Ref]; ok && op.Ref > 0 {
